@@ -90,10 +90,12 @@ def generate(seed, prop):
     proc = draw_processing(rng)
     order = list(range(n_files))
     rng.shuffle(order)
+    if rng.random() < 0.08:
+        order = order[:1]                            # a batch of one file
     nproc = rng.choice([None, 1, 2, 2, 3, 4, 6])
     argv = {"order": order, "nproc": nproc, "cpus": rng.choice([2, 3, 4, 8]),
             "dfn": rng.choice(["lognormal", "normal"]), "dmc": rng.choice(["lognormal", "normal"]),
-            "no_figure": rng.random() < 0.92}
+            "no_figure": rng.random() < 0.92, "no_file": rng.random() < 0.04}
     sched = {"mode": rng.choice(["random", "random", "random", "fifo"]), "seed": rng.randrange(1 << 30),
              "stall_rate": rng.choice([0.0, 0.1, 0.3])}
     return {"machine": "cli", "property": prop, "run_seed": int(seed),
@@ -258,6 +260,8 @@ def execute(triple, prop):
                                             "--distribution_fn", argv["dfn"], "--distribution_mc", argv["dmc"]]
         if argv["no_figure"]:
             args.append("--no_figure")
+        if argv.get("no_file"):
+            args.append("--no_file")
         if argv["nproc"] is not None:
             args += ["--nproc", str(argv["nproc"])]
         clock = SimClock()
@@ -308,11 +312,21 @@ def execute(triple, prop):
         nproc = argv["cpus"] - 1 if argv["nproc"] is None else argv["nproc"]
         key = {"cls": world["proc"]["cls"], "nproc": nproc, "ntasks": ntasks}
         expect_fail = [s for s in stems if isinstance(ref[s], tuple)]
+        if pool is None and argv["no_figure"] and argv.get("no_file"):
+            # nothing to do: the command returns before starting any worker
+            ctx.check(not os.listdir(out_dir) and cli_exc is None, "unexpected_output",
+                      f"--no_figure --no_file: directory {os.listdir(out_dir)}, exception {cli_exc!r}", key=key)
+            ctx.signature(ntasks, nproc, "nothing-to-do")
+            return _result(ctx, None)
         if pool is None:
             ctx.check(False, "cli_did_not_run", f"cli raised before creating the pool: {cli_exc!r}", key=key)
         # ---- per-file oracle
         listing = sorted(os.listdir(out_dir))
-        for s in stems:
+        if argv.get("no_file"):
+            csvs = [n for n in listing if n.endswith(".csv")]
+            ctx.check(not csvs, "unexpected_output", f"--no_file given but {csvs} were written", key=key)
+            ctx.probe("no_file_judged")
+        for s in ([] if argv.get("no_file") else stems):
             r = ref[s]
             p = os.path.join(out_dir, s + ".csv")
             if isinstance(r, tuple):
